@@ -522,7 +522,7 @@ void UtilContext::write8(const char *token)
 
   if (token == nullptr) { printf("Syntax error: bad address\n"); return; }
 
-  int n = address;
+  uint32_t n = address;
 
   while (true)
   {
@@ -557,7 +557,7 @@ void UtilContext::write16(const char *token)
     return;
   }
 
-  int n = address;
+  uint32_t n = address;
 
   while (true)
   {
@@ -591,7 +591,7 @@ void UtilContext::write32(const char *token)
     return;
   }
 
-  int n = address;
+  uint32_t n = address;
 
   while (true)
   {
